@@ -232,24 +232,26 @@ Definition emitter (st : est) (iov : list (list Z)) (offset len : Z) : option es
       end
     else copy_back_all st iov.
 
-(* flatcc_emitter_reset *)
-Fixpoint free_loop (a c : Z) (ring : list page) : list page * Z :=
-  match ring with
-  | [] => ([], c)
-  | p :: r => if a * 2 <? c then free_loop a (c - P) r else (ring, c)
-  end.
-
-Definition reset (st : est) : est :=
+(* flatcc_emitter_reset.  What the property speaks about: the front page becomes the only page in use, cursors in the
+   middle, used = 0.  How many of the other pages stay in the pool is a tuning policy of the implementation (a heuristic
+   over used_average and capacity, revised freely) that no observable of the stream depends on: the model takes the
+   number [keep] of retained spare pages as an ORACLE input (the check passes what the implementation is observed to do)
+   and frees the rest; every theorem holds for every value of it.  A page in use is never among the freed ones (only the
+   front page is in use after reset and it is kept); capacity follows the page count; used_average is bookkeeping of the
+   policy and is only carried along. *)
+Definition reset (keep : nat) (st : est) : est :=
   match pages st with
   | [] => set_used st 0     (* if (!E->front) { E->used = 0; return; } *)
   | f :: rest =>
     let a0 := if avg st =? 0 then used st else avg st in
     let a1 := a0 * 3 / 4 + used st / 4 in
-    let rc := free_loop a1 (cap st) (rest ++ spare st) in
-    {| pages := [{| pdata := pdata f; poff := - (P / 2) |}]; spare := fst rc;
+    let pool := firstn keep (rest ++ spare st) in
+    {| pages := [{| pdata := pdata f; poff := - (P / 2) |}]; spare := pool;
        fc := P / 2; fl := P / 2; bc := P / 2; bl := P - P / 2;
-       used := 0; cap := snd rc; avg := a1; nalloc := nalloc st |}
+       used := 0; cap := P * (1 + zlen pool); avg := a1; nalloc := nalloc st |}
   end.
+Definition freed_by_reset (keep : nat) (st : est) : nat :=
+  match pages st with [] => O | _ :: rest => (length (rest ++ spare st) - keep)%nat end.
 
 (* flatcc_emitter_clear: every page freed, struct zeroed *)
 Definition clear (st : est) : est :=
@@ -349,13 +351,13 @@ Definition end_off (st : est) : Z :=
 (* ------------------------------------------------------------------ histories *)
 Inductive op :=
 | Emit (iov : list (list Z)) (offset len : Z)
-| Reset
+| Reset (keep : nat)          (* keep = number of spare pages the reset retains (oracle) *)
 | RecycleSpare (i : nat).     (* recycle the i-th page after E->back (a page not in use) *)
 
 Definition step (st : est) (o : op) : option est :=
   match o with
   | Emit iov off len => emitter st iov off len
-  | Reset => Some (reset st)
+  | Reset k => Some (reset k st)
   | RecycleSpare i => match recycle st (length (pages st) + i) with Some (st', _) => Some st' | None => None end
   end.
 
@@ -371,7 +373,7 @@ End Emitter.
 Definition spec_step (s : list Z * Z) (o : op) : list Z * Z :=
   match o with
   | Emit iov off len => if off <? 0 then (concat iov ++ fst s, snd s - len) else (fst s ++ concat iov, snd s)
-  | Reset => ([], 0)
+  | Reset _ => ([], 0)
   | RecycleSpare _ => s
   end.
 Definition spec (h : list op) : list Z * Z := fold_left spec_step h ([], 0).
